@@ -391,3 +391,110 @@ def optimize_gating_unit(ctx):
     preprocess once before, exline_arithmetic every round, postprocess once after (pass bodies uninterpreted)"""
     optimize_gating(ctx)
     ctx.adopt_engine_obligations(source="property", replay={"mirror": "optimize_gating"})
+
+
+@unit("C19.get_parser", "C19", "ngo.utils.parser:get_parser", fallback="verify_enable_bounded")
+def get_parser_unit(ctx):
+    """the parser declares --enable with action VerifyEnable, one or more values, lower-casing, choices = {all, none,
+    default} + the nine traits and default DEFAULT_OPTIONS; --input-predicates / --output-predicates with action
+    PredicateList, an optional value and default `auto`"""
+    from pyvc.values import ClassVal, Builtin
+
+    ex = ctx.ex
+    st = ctx.state()
+    parser = Opaque("parser")
+    ex.opaque_handlers["argparse.ArgumentParser"] = lambda e, s, a, k: [(s, parser)]
+    ex.opaque_handlers["textwrap.dedent"] = lambda e, s, a, k: [(s, "ngo")]
+    res = ctx.call(st, ctx.fn("ngo.utils.parser", "get_parser"), [])
+    ok, bad = returned(res)
+    ctx.cover("reach", st)
+    no_raise(ctx, "no-raise", res)
+    for n, (s, r) in enumerate(ok):
+        adds = {}
+        for e in s.log:
+            if e[0] == "call" and e[1] == "parser.add_argument":
+                flags = [a for a in e[2] if isinstance(a, str)]
+                adds[flags[0] if flags else "?"] = dict(e[3])
+        ctx.oblige(f"returns-the-parser#{n}", s, z3.BoolVal(r == parser), kind="frame", replay={"mirror": "verify_enable_bounded"})
+        en = adds.get("--enable", {})
+        choices = ex.B.concrete_items(s, en.get("choices")) if en.get("choices") is not None else None
+        default = ex.B.concrete_items(s, en.get("default")) if en.get("default") is not None else None
+        ok_enable = (
+            isinstance(en.get("action"), ClassVal)
+            and en["action"].name == "VerifyEnable"
+            and en.get("nargs") == "+"
+            and isinstance(en.get("type"), Builtin)
+            and en["type"].name == "str.lower"
+            and choices is not None
+            and sorted(choices) == sorted(TOKENS)
+            and default is not None
+            and sorted(default) == sorted(t for t in TRAITS if t != "duplication")
+        )
+        ctx.oblige(f"enable-option#{n}", s, z3.BoolVal(bool(ok_enable)), replay={"mirror": "verify_enable_bounded"})
+        for opt in ("--input-predicates", "--output-predicates"):
+            o = adds.get(opt, {})
+            okp = isinstance(o.get("action"), ClassVal) and o["action"].name == "PredicateList" and o.get("nargs") == "?" and o.get("default") == "auto"
+            ctx.oblige(f"predicate-option[{opt}]#{n}", s, z3.BoolVal(bool(okp)), replay={"mirror": "main_wiring"})
+    ctx.inputs.clear()
+    ctx.assume_note("argparse's documented behaviour for action / nargs / type / choices / default is assumed")
+
+
+@unit("C19.PredicateList", "C19", "ngo.utils.parser:PredicateList.__call__", fallback="predicate_list_bounded")
+def predicate_list(ctx):
+    """`auto` is passed on as `auto`; None or the empty string give the empty list; otherwise the value is split at
+    commas and every item must split at `/` into exactly two parts: the predicate name (blanks stripped) and an integer
+    arity -- an error otherwise; the predicates are stored in order.  (str.split / str.strip / int are uninterpreted.)"""
+    from pyvc.exec import Raised as _R
+
+    ex, m = ctx.ex, ctx.m
+    me, parser, ns = Opaque("self"), Opaque("parser"), Opaque("namespace")
+    f = ctx.method("ngo.utils.parser", "PredicateList", "__call__", me)
+    # 1. the three special values
+    for tag, val, want in (("auto", "auto", "auto"), ("none", None, []), ("empty", "", [])):
+        st = ctx.state()
+        res = ctx.call(st, f, [parser, ns, val, Opaque("option_string")])
+        ok, bad = returned(res)
+        no_raise(ctx, f"no-raise[{tag}]", res)
+        for n, (s, _r) in enumerate(ok):
+            sets = [e for e in s.log if e[0] == "setattr"]
+            good = len(sets) == 1 and sets[0][1] == ns
+            if good:
+                v = sets[0][3]
+                good = (v == "auto") if want == "auto" else (ex.B.concrete_items(s, v) == [])
+            ctx.oblige(f"special-value[{tag}]#{n}", s, z3.BoolVal(bool(good)), replay={"mirror": "predicate_list_bounded"})
+    # 2. a general string
+    st = ctx.state()
+    values = ctx.sym("values", "str")
+    st.assume(values.term != m.strlit("auto"), values.term != m.strlit(""))
+    res = ctx.call(st, f, [parser, ns, values, Opaque("option_string")])
+    ok, bad = returned(res)
+    ctx.cover("reach", st)
+    split = ex.ufunc("str_split", [m.Str, m.Str], m.sort(("list", "str")))
+    strip = ex.ufunc("str_strip", [m.Str, m.Str], m.Str)
+    parse_ok = ex.ufunc("int_parse_ok", [m.Str], z3.BoolSort())
+    parse = ex.ufunc("int_parse", [m.Str], z3.IntSort())
+    lnS, atS = m.lst_funcs("str")
+    items = split(values.term, m.strlit(","))
+    k = z3.Int("k!pl")
+    parts = split(atS(items, k), m.strlit("/"))
+    item_ok = z3.And(lnS(parts) == 2, parse_ok(atS(parts, 1)))
+    all_ok = z3.ForAll([k], z3.Implies(z3.And(0 <= k, k < lnS(items)), item_ok))
+    PRED = ("rec", "Predicate")
+    lnP, atP = m.lst_funcs(PRED)
+    for n, (s, r) in enumerate(bad):
+        ctx.oblige(f"error-only-for-malformed-item#{n}", s, z3.And(z3.BoolVal(r.exc == "ArgumentTypeError"), z3.Not(all_ok)), replay={"mirror": "predicate_list_bounded"})
+    for n, (s, _r) in enumerate(ok):
+        sets = [e for e in s.log if e[0] == "setattr"]
+        if len(sets) != 1:
+            ctx.oblige(f"stores-once#{n}", s, z3.BoolVal(False), replay={"mirror": "predicate_list_bounded"})
+            continue
+        lt = ex.to_term(s, sets[0][3], ("list", PRED))
+        want = m.rec_ctor("Predicate")(strip(atS(split(atS(items, k), m.strlit("/")), 0), m.strlit(" ")), parse(atS(split(atS(items, k), m.strlit("/")), 1)))
+        ctx.oblige(
+            f"list-of-predicates#{n}",
+            s,
+            z3.And(all_ok, lnP(lt) == lnS(items), z3.ForAll([k], z3.Implies(z3.And(0 <= k, k < lnS(items)), atP(lt, k) == want))),
+            replay={"mirror": "predicate_list_bounded"},
+        )
+    ctx.inputs.clear()
+    ctx.assume_note("str.split / str.strip / int() are uninterpreted functions (their stdlib meaning is assumed); the bounded stand-in predicate_list_bounded runs the real parser on concrete strings")
